@@ -1,0 +1,42 @@
+//go:build verif
+
+// Contracts for the verification machinery in /verif (comment-only; no declarations).
+//
+// C02: the connection wrapper that peeks the first three bytes (to demultiplex TCP / TLS / HTTP) replays exactly
+// those three bytes, in order, each once, whatever the sizes of the read buffers, and only then delegates to the
+// underlying connection - no byte of the stream is dropped, duplicated or reordered.
+
+package sampledconn
+
+//@ func newWrappedSampledConn
+//@ prop C02
+//@ ensures result2 == nil ==> result1 != nil && fresh(result1) && result1.ManetTCPConnInterface == conn && result1.bytesPeeked == 0
+//@ ensures result2 == nil ==> ghost.consumed(conn) == old(ghost.consumed(conn)) + peekSize
+//@ ensures result2 == nil ==> forall i int :: 0 <= i && i < peekSize ==> result1.peekedBytes[i] == instream(conn, old(ghost.consumed(conn)) + i)
+//@ ensures result2 == nil ==> forall i int :: 0 <= i && i < peekSize ==> result0[i] == result1.peekedBytes[i]
+//@ ensures result2 != nil ==> result1 == nil
+//@ modifies ghost.consumed(conn)
+
+//@ func PeekBytes
+//@ prop C02
+//@ inline newWrappedSampledConn
+//@ ensures result2 == nil ==> called(newWrappedSampledConn, 0) && ret(newWrappedSampledConn, 0, 2) == nil && result1 == ret(newWrappedSampledConn, 0, 1) &&
+//@         arg(newWrappedSampledConn, 0, 0) == conn && result1 != nil
+//@ ensures result2 == nil ==> ghost.consumed(conn) == old(ghost.consumed(conn)) + peekSize
+//@ ensures result2 == nil ==> forall i int :: 0 <= i && i < peekSize ==> result0[i] == instream(conn, old(ghost.consumed(conn)) + i)
+//@ modifies ghost.consumed(conn)
+
+//@ func (sc *wrappedSampledConn) Read
+//@ prop C02
+//@ arith wrap
+//@ requires sc.bytesPeeked <= peekSize && disjoint(b, sc)
+//@ ensures sc.bytesPeeked <= peekSize
+// replay phase: the next min(len(b), remaining) peeked bytes, nothing is read from the connection
+//@ ensures old(sc.bytesPeeked) < peekSize ==> result1 == nil && result0 == min(len(b), peekSize - old(sc.bytesPeeked)) &&
+//@         sc.bytesPeeked == old(sc.bytesPeeked) + result0 && ncalls(Read, 0) == 0
+//@ ensures old(sc.bytesPeeked) < peekSize ==> forall i int :: 0 <= i && i < result0 ==> b[i] == sc.peekedBytes[old(sc.bytesPeeked) + i]
+//@ ensures forall i int :: 0 <= i && i < peekSize ==> sc.peekedBytes[i] == old(sc.peekedBytes[i])
+// afterwards: plain delegation with the caller's buffer
+//@ ensures old(sc.bytesPeeked) == peekSize ==> ncalls(Read, 0) == 1 && arg(Read, 0, 0) == sc.ManetTCPConnInterface && arg(Read, 0, 1) == b &&
+//@         result0 == ret(Read, 0, 0) && result1 == ret(Read, 0, 1) && sc.bytesPeeked == peekSize
+//@ modifies sc.bytesPeeked, elems(b), ghost.consumed(sc.ManetTCPConnInterface)
